@@ -110,8 +110,8 @@ def _ref(rng, npool):
     if r < 0.55:
         return {"pool": rng.randrange(npool)}
     if r < 0.85:
-        return {"held": rng.randrange(12)}
-    return {"inner": rng.randrange(12)}
+        return {"held": rng.randrange(997)}
+    return {"inner": rng.randrange(997)}
 
 
 def generate(rng, tier, prop):
@@ -131,6 +131,14 @@ def generate(rng, tier, prop):
 
     maxops = 30 if tier == "quick" else rng.choice([30, 30, 45])
     nops = rng.randint(1, maxops)
+    # size swarm: a few long histories over a wider key universe (thresholds, caches, quadratic paths)
+    if rng.random() < (0.01 if tier == "quick" else 0.06):
+        wide = [chr(ord("a") + i) for i in range(rng.choice([6, 12, 26]))]
+        pool += [{"t": "entry", "type": rng.choice(["article", "book"]), "key": rng.choice(wide), "v": rng.randint(0, 1)}
+                 for _ in range(rng.choice([20, 60, 150]))]
+        pool += [{"t": "string", "key": rng.choice(wide), "v": rng.randint(0, 1)} for _ in range(rng.choice([5, 20]))]
+        npool = len(pool)
+        nops = rng.randint(80, 250 if tier == "quick" else 1200)
     w_add, w_rem, w_rep = rng.choice([(5, 2, 3), (4, 3, 3), (3, 3, 4), (6, 1, 3), (3, 5, 2)])
     p_fail = rng.choice([0.2, 0.5, 0.8])
     p_list = rng.choice([0.15, 0.35])
@@ -149,13 +157,13 @@ def generate(rng, tier, prop):
         elif r < w_add + w_rem:
             if rng.random() < p_list:
                 # bias: a held block followed by one that is (probably) not held
-                x = [{"held": rng.randrange(12)} if rng.random() < 0.6 else _ref(rng, npool)
+                x = [{"held": rng.randrange(997)} if rng.random() < 0.6 else _ref(rng, npool)
                      for _ in range(rng.randint(0, 3))]
             else:
-                x = {"held": rng.randrange(12)} if rng.random() < 0.5 else _ref(rng, npool)
+                x = {"held": rng.randrange(997)} if rng.random() < 0.5 else _ref(rng, npool)
             ops.append({"op": "remove", "x": x})
         else:
-            old = {"held": rng.randrange(12)} if rng.random() < 0.6 else _ref(rng, npool)
+            old = {"held": rng.randrange(997)} if rng.random() < 0.6 else _ref(rng, npool)
             new = {"pool": rng.randrange(npool)} if rng.random() < 0.8 else _ref(rng, npool)
             ops.append({"op": "replace", "old": old, "new": new, "fail": rng.random() < p_fail})
     return {"config": {"pool": pool}, "ops": ops}
@@ -547,17 +555,11 @@ def execute(run, props):
         for c, msg in bad_views:
             res.violate("C08", "view", f"C08/view/{c}/after-{label}", step, msg)
             return res
-        # wrappers made by the library expose key / previous / duplicate
+        # (what a duplicate wrapper exposes - key, previous block - is C09's clause, not C08's: counted, not judged)
         for r in lib.blocks:
             if isinstance(r, M.DuplicateBlockKeyBlock) and id(r) not in caller_known:
-                inner = r.ignore_error_block
-                prev = r.previous_block
-                ok = (isinstance(inner, M.Block) and _kind(inner) is not None and r.key == inner.key
-                      and prev is not None and _kind(prev) == _kind(inner) and prev.key == r.key)
-                if not ok:
-                    res.violate("C08", "wrapper", f"C08/wrapper/after-{label}", step,
-                                f"duplicate wrapper does not expose key/previous/duplicate consistently: key={r.key!r}")
-                    return res
+                res.probes["library_made_duplicate_wrapper_held"] += 1
+                break
 
         slots = _resync(lib, caller_known)
         if post != pre_snapshot:
